@@ -109,6 +109,9 @@ pub enum PtsMode {
     DtsEqual,
     /// write_video_with_dts with pts_i = dts_{perm[i]}
     Perm(usize),
+    /// write_video_with_dts with every frame decoded 0.1 s after it is presented (negative
+    /// composition offsets; audio may then lie between the first frame's two times)
+    Late,
 }
 
 pub const DTS_PATTERNS: usize = 3;
@@ -154,6 +157,7 @@ pub fn build_ops(cfg: &Cfg, s: &HistSpec) -> Vec<Op> {
         PtsMode::Perm(_) => (0..nv).map(|i| dts[s.perm[i]]).collect(),
         _ => dts.clone(),
     };
+    let dts: Vec<f64> = if s.pts_mode == PtsMode::Late { dts.iter().map(|d| d + 0.1).collect() } else { dts };
     let first_vpts = pts.first().copied().unwrap_or(0.0);
     let acodec = cfg.audio.as_ref().map(|a| a.codec);
     let mut ops = vec![];
@@ -188,6 +192,9 @@ pub fn c01_specs(cfg: &Cfg, nv_max: usize, na_max: usize, thorough: bool) -> Vec
             for order in orders(nv, na) {
                 let perms = permutations(nv);
                 let mut modes: Vec<(PtsMode, Vec<usize>)> = vec![(PtsMode::Plain, vec![]), (PtsMode::DtsEqual, vec![])];
+                if nv > 0 {
+                    modes.push((PtsMode::Late, vec![]));
+                }
                 for (k, p) in perms.iter().enumerate() {
                     if p.iter().enumerate().any(|(i, &x)| i != x) {
                         modes.push((PtsMode::Perm(k), p.clone()));
